@@ -84,6 +84,22 @@ pub fn run_c05(seed: u64, n: usize, out: &mut Out) {
             }
         }
         if r.pct(20) {
+            // left-anchored plain rules of one bucket, of very different lengths: fused, each still matches what it matches alone
+            let h: &str = r.pick(&["ads.tracker.io", "cdn.test"]);
+            let opt: &str = r.pick(&["", "$script", "$image,third-party"]);
+            let exc = r.pct(20);
+            for tail in ["ads/popunder/long/path/segment", "ads.js", "pop", "ad"] {
+                lines.push(format!("{}|https://{}/{}{}", if exc { "@@" } else { "" }, h, tail, opt));
+            }
+            if exc {
+                lines.push(format!("||{}^", h));
+            }
+            let ty = if opt.contains("image") { "image" } else { "script" };
+            for u in ["ads.js", "advert.js", "pop", "ads/popunder/long/path/segment/x", "a"] {
+                aimed.push((format!("https://{}/{}", h, u), "https://shop.test/".to_string(), ty.to_string()));
+            }
+        }
+        if r.pct(20) {
             // regular-expression rules that do not compile (look-around, unbalanced brackets) match nothing; fused with others of
             // their bucket they must not take those down with them
             let bad: &str = r.pick(&["/banner[0-9]+(?!x)/", "/zz[/", "/a{2,1}b/", "/(?<=ad)vert/"]);
@@ -129,7 +145,7 @@ pub fn run_c05(seed: u64, n: usize, out: &mut Out) {
             continue;
         }
         let mut live_optimized = false;
-        let rounds = 5 + aimed.len().min(4);
+        let rounds = 5 + aimed.len().min(8);
         for k in 0..rounds {
             let (u, s, t) = match aimed.pop() {
                 Some(a) if k >= 3 || r.pct(50) => a,
@@ -357,6 +373,17 @@ pub fn run_c04(seed: u64, n: usize, out: &mut Out) {
             lines.extend(every_tag_copies(&mut r));
             scenario_url = Some(format!("https://cdn.test/{}", r.pick(&["x1", "x2"])));
         }
+        if r.pct(15) {
+            // one pattern text under different anchors and hosts, blocking and excepting: what is compiled for one of them is not
+            // what the others mean
+            let w: &str = r.pick(&["adimg", "ads"]);
+            lines.push(format!("/{}/*.gif", w));
+            if r.pct(60) { lines.push(format!("{}||cdn.test/{}/*.gif", if r.pct(50) { "@@" } else { "" }, w)); }
+            if r.pct(60) { lines.push(format!("{}/{}/*.gif|", if r.pct(50) { "@@" } else { "" }, w)); }
+            if r.pct(40) { lines.push(format!("@@|https://cdn.test/{}/*.gif", w)); }
+            if r.pct(40) { lines.push("||cdn.test^".to_string()); }
+            scenario_url = Some(format!("https://cdn.test/{}{}/1.gif{}", r.pick(&["static/", ""]), w, r.pick(&["", "?cb=42"])));
+        }
         if r.pct(12) {
             // a rule that does not compile next to ones that do (adding a rule never unblocks)
             lines.push("/advert[0-9]+/".to_string());
@@ -546,7 +573,23 @@ pub fn run_c13(seed: u64, n: usize, out: &mut Out) {
             }
             bare_host = Some(h);
         }
-        let resources = if r.pct(30) { std_resources() } else { gen_store(&mut r) };
+        // rules with a single `domain=` value are stored under that domain: a request from `video.news.com` collects the
+        // redirects, redirect-rules and exceptions stored for `video.news.com` AND for `news.com`
+        let mut level_query: Option<(String, String)> = None;
+        if r.pct(25) {
+            let names = ["a.js", "b.gif", "alias-a"];
+            let (n1, n2) = (*r.pick(&[&"a.js", &"b.gif"]), names[r.below(3)]);
+            lines.push(format!("||adserver.test^$script,redirect-rule={}:{},domain=video.news.com", n1, r.pick(&["1", "5", "10"])));
+            lines.push(format!("||adserver.test^$script,redirect-rule={}:{},domain=news.com", n2, r.pick(&["1", "5", "10", "20"])));
+            if r.pct(50) {
+                lines.push(format!("@@||adserver.test/player/$script,redirect-rule={},domain={}", names[r.below(3)], r.pick(&["news.com", "video.news.com"])));
+            }
+            if r.pct(30) {
+                lines.push("||adserver.test^$script,domain=news.com".to_string());
+            }
+            level_query = Some((format!("https://adserver.test/{}a.js", r.pick(&["", "player/"])), "https://video.news.com/".to_string()));
+        }
+        let resources = if r.pct(30) || level_query.is_some() { std_resources() } else { gen_store(&mut r) };
         let optimize = r.pct(50);
         let tags = vec![];
         let mut e = build(&lines, optimize, &tags, &resources);
@@ -584,6 +627,12 @@ pub fn run_c13(seed: u64, n: usize, out: &mut Out) {
                 u = format!("https://{}/{}", h, r.pick(&["", "index.html", "x1"]));
                 t = r.pick(&["document", "script", "image", "subdocument"]).to_string();
             }
+            let mut s = s;
+            if let (true, Some((lu, ls))) = (k >= 2, &level_query) {
+                u = lu.clone();
+                s = ls.clone();
+                t = "script".to_string();
+            }
             if !u.is_ascii() {
                 continue;
             }
@@ -610,6 +659,7 @@ pub fn run_c13(seed: u64, n: usize, out: &mut Out) {
 // ------------------------------------------------------------------------------------------ C15
 pub fn run_c15(seed: u64, n: usize, out: &mut Out) {
     let mut r = Rng::new(seed);
+    crate::c12::type_table_oracle(out);
     let resources = std_resources();
     for _ in 0..n {
         let o = gen::ClusterOpts { csp: true, removeparam: false, badfilter: true, tags: true, redirect: false, exceptions: true, important: false };
@@ -623,6 +673,20 @@ pub fn run_c15(seed: u64, n: usize, out: &mut Out) {
         // tagged csp rules
         if r.pct(30) {
             lines.push(format!("/adframe/$csp=tagged-{},tag=t1", r.below(2)));
+        }
+        // a top-level navigation is a document request initiated by its own URL: rules scoped by `domain=` to the page's full
+        // host name, to its registrable domain, or to the one but not the other
+        let mut self_nav: Option<String> = None;
+        if r.pct(25) {
+            lines.push("$csp=worker-src 'none',domain=app.shop.test".to_string());
+            lines.push("$csp=frame-src x,domain=shop.test|~app.shop.test".to_string());
+            if r.pct(50) {
+                lines.push(format!("@@||shop.test^$csp{},domain=app.shop.test", r.pick(&["", "=worker-src 'none'"])));
+            }
+            if r.pct(50) {
+                lines.push("||app.shop.test^$csp=img-src y,domain=shop.test".to_string());
+            }
+            self_nav = Some(format!("https://{}shop.test/inbox", r.pick(&["app.", "app.", "", "www.app."])));
         }
         let optimize = r.pct(50);
         let tags = tagsets(&mut r);
@@ -663,6 +727,15 @@ pub fn run_c15(seed: u64, n: usize, out: &mut Out) {
                 }
             }
             let t = if r.pct(60) { r.pick(&["document", "subdocument", "main_frame", "sub_frame"]).to_string() } else { t };
+            let mut s = s;
+            if let Some(nav) = &self_nav {
+                if r.pct(60) {
+                    u = nav.clone();
+                    s = nav.clone();
+                }
+            } else if r.pct(10) {
+                s = u.clone();
+            }
             if !u.is_ascii() {
                 continue;
             }
